@@ -1,6 +1,7 @@
 package rules
 
 import (
+	"os"
 	"fmt"
 	"go/types"
 	"sort"
@@ -57,6 +58,15 @@ func ruleC18(c *Ctx) {
 	R.Assume("the standard-library functions called are safe on disjoint objects; the effect of an external function is limited to memory reachable from its arguments (read-only and receiver-only functions are listed in tool/internal/effects)")
 	a := c.effects()
 	R.Count("C18.functions_summarised", len(a.Funcs()))
+	if dbg := os.Getenv("IVGSA_DEBUG_EFFECTS"); dbg != "" {
+		for _, fn := range a.Funcs() {
+			if strings.Contains(fn.String(), dbg) {
+				for _, w := range a.WritesOf(fn) {
+					fmt.Fprintf(os.Stderr, "EFFECT %s writes %s via %s at %s\n", fn.String(), w.Root.String(), w.Via, c.Pos(w.Ins))
+				}
+			}
+		}
+	}
 	for _, u := range a.Unresolved {
 		R.Note("effects: %s", u)
 	}
